@@ -7,6 +7,16 @@ ALL = ["C%02d" % i for i in range(1, 21)]
 
 # id -> (category, technique, level text, level note, design_ref)
 CHECKS = {
+ "C04": ("fault_enumeration",
+         "exhaustive enumeration of signing-request histories x every crash point (every file-system operation boundary, torn last write, power-loss of unsynced data) of the real FilePV over an in-memory file-system shim",
+         "All histories of <= 2 requests over the full 120-request alphabet (SignVote/SignProposal/SignVoteWithoutSave x heights {1,2} x rounds {0,1} x steps x blocks {A,B,nil} x 2 timestamps) plus depth 3 on a reduced alphabet (thorough: depth 3 on the full alphabet, 1.7M histories / 22.7M crash scenarios); for each history a crash at every FS operation boundary inside and between calls, torn last write, and loss of unsynced data; the signer is reloaded with LoadFilePV from the surviving bytes and the remaining requests are issued. Oracle over everything ever released without error across process lifetimes: at most one distinct payload per (height, round, step) modulo timestamp, no release below the maximum released HRS, reload never fails on a file the code wrote, a signature is never visible to the caller before its record is durable.",
+         "File-system model: rename/create/remove atomic and durable on return; directory-entry durability without a directory fsync is not modelled. The os/ioutil calls of WriteFileAtomic, LoadFilePV and the rest of priv_validator.go/os.go are redirected to the shim by a generator that re-instruments the CURRENT files on every build and fails loudly if the functions changed shape. One crash per history; sequential requests.",
+         "5/C04"),
+ "C09": ("model_checking",
+         "explicit-state BFS over state-operation sequences on the real StateDB (3 database modes, up to 3 live instances, nested snapshots) vs. deep-copy reference model + untouched-twin root oracle",
+         "24 searches per tier (8 alphabets x caching-trie / kv-trie / kv-flat): all sequences over the mutators of the statement (balance, token balance, nonce, code, storage, CreateAccount, Suicide, AddLog, AddRefund) on 2 accounts x 3 tokens x 2 slots interleaved with Snapshot, RevertTo(k-th open), Copy (stay/switch), IntermediateRoot, Commit; full 53-letter alphabet to depth 4, focused alphabets to depth 6-10 (thorough). After every op, on every live instance: all getters equal the model, a throw-away Copy equals its source, and IntermediateRoot/Commit root equal those of an untouched twin that executed only the un-reverted operations.",
+         "deleteEmptyObjects=false (the only value the repo passes); balances never negative; kv modes with cache 0; six recorded known findings (see known_findings.json) are explored around, not merged away.",
+         "5/C09"),
  "C10": ("model_checking",
          "explicit-state BFS over operation sequences of the real trie vs. map reference model; exhaustive permutation and proof-tamper enumeration",
          "All sequences (quick depth 5, thorough depth 5 on a larger alphabet) of update/delete/hash/commit/flush/cap/dereference/reopen/copy on the real Trie, SecureTrie and trie Database, de-duplicated on a canonical state; after every transition: reads, canonical root (= root of a fresh trie with the same content), root injectivity, iterator stream, genuine proofs; then every insertion permutation of every reached content and every single-node proof tamper (drop, byte substitution, truncation, foreign node). Right level: the property is a for-all over histories of a small sequential library, which bounded exhaustive search decides directly on the code.",
@@ -27,6 +37,11 @@ CHECKS = {
          "(A) 42 base blocks (heights 1..3, 0..4 transactions incl. one confidential, 0..2 evidence items, real signed LastCommit) x every single perturbation of every header field, transaction (content, order, duplication), evidence item and LastCommit slot (thorough: all pairs): different content must give a different (Block.Hash, MakePartSet(sz).Header()) pair, equal content an equal pair; Vote.SignBytes injective over all ids. (B) opx BFS over all delivery sequences of the genuine parts and ~35 forgeries per index (bytes, index incl. negative/MaxInt, proof aunts, parts of other blocks/part sizes) into NewPartSetFromHeader, parts travelling through the wire codec, all orders up to 6 (quick) / 8 (thorough) parts; completed sets are read back, decoded and stored/loaded through a real BlockStore. (C) SimpleProof.Verify for all (index,total) <= 9 / 16 with every single-aunt tamper.",
          "keccak-256 treated as collision-free on the enumerated inputs; confidential inputs (rings) not enumerated; which error value AddPart returns is not judged.",
          "5/C12"),
+ "C19": ("model_checking",
+         "explicit-state BFS over operation sequences on every real backend (memdb, goleveldb, bolt, badger, fsdb, prefix views) vs. a sorted-map reference model, 184 observations per state",
+         "16 searches (11 quick): all sequences of Set/SetSync/Put, Delete/DeleteSync/Del, batch Set/Delete/Write/WriteSync/Commit/Reset/abandon and Close+reopen over the key shapes {nil, '', a, a\\x00, a\\xff, b, \\xff, \\xff\\xff}, depth 3-5 depending on backend cost; after every history Get/Has/Load/Exist of all 8 keys and the full key/value stream of Iterator and ReverseIterator for all 64 (start,end) pairs, NewIteratorWithPrefix and IteratePrefix for every prefix are compared with the model; batches must be invisible until written and then entirely visible in their own order.",
+         "db_counts=1 (default); cleveldb does not compile under its build tag and is left out; empty values and the error value for a missing key are excluded as the property says; two recorded known findings (bolt/badger cannot store the empty key).",
+         "5/C19"),
  "C16": ("model_checking",
          "exhaustive state x message product on the real reactor + state machine (boundary-value fields, signature modes, wrong channels, raw byte truncation/substitution), worker subprocesses under ulimit -v",
          "11 scripted consensus states (every step of height 1, round 1, height 2) x every hostile message of the alphabet (about 1800 typed messages: each field of Vote/Proposal/BlockPart/state-channel messages at boundary values x 5 signature modes, every message kind on every wrong channel; about 9700 raw byte strings: every truncation and every single-byte substitution from 11 values of 6 valid encodings); thorough adds all ordered pairs of consensus-relevant messages. Each case goes through ConsensusReactor.Receive as the p2p layer delivers it, then whatever was queued through handleMsg, then timeouts. Oracle: no panic or process death in the state machine; invalid messages leave the RoundState digest unchanged.",
